@@ -19,8 +19,9 @@ Definition subject (n1 : nat) (o : op) : option nat :=
   end.
 
 Definition on_grid (tick p : N) : bool := p mod tick =? 0.
+(* an off-grid modification price is inside the domain: the request is ignored (C12) *)
 Definition price_ok (tick : N) (p : option N) : bool :=
-  match p with Some p => on_grid tick p && (0 <? p) && (p <? MAXP) | None => true end.
+  match p with Some p => (0 <? p) && (p <? MAXP) | None => true end.
 Definition vol_ok (v : option N) : bool :=
   match v with Some v => (1 <=? v) && (v <? W32) | None => true end.
 
@@ -195,16 +196,20 @@ Definition in_levels (sd : side) (tick : N) (L : nat) (tch p : N) : bool :=
   | Ask => (tch <=? p) && (p - tch <? N.of_nat L * tick)
   end.
 
-Definition c12_ok (L : nat) (tick : N) (o1 : observation) (o : op) (x : out) (o2 : observation) : N :=
+(** creation clause: applies to *every* creation request, whatever its price *)
+Definition c12_create_ok (tick : N) (o1 : observation) (o : op) (x : out) (o2 : observation) : bool :=
   let create_ok p := match p with Some p => on_grid tick p | None => true end in
-  if negb (match o, x with
-           | (OCreate _ _ _ p | OCreatePlace _ _ _ p), OCreated (Created _) => create_ok p
-           | (OCreate _ _ _ (Some p) | OCreatePlace _ _ _ (Some p)), OCreated (PriceError p' t') =>
-               negb (on_grid tick p) && (p' =? p) && (t' =? tick) && obs_eqb o2 o1
-           | (OCreate _ _ _ _ | OCreatePlace _ _ _ _), _ => false
-           | _, ONone => true
-           | _, _ => false
-           end) then 1
+  match o, x with
+  | (OCreate _ _ _ p | OCreatePlace _ _ _ p), OCreated (Created _) => create_ok p
+  | (OCreate _ _ _ (Some p) | OCreatePlace _ _ _ (Some p)), OCreated (PriceError p' t') =>
+      negb (on_grid tick p) && (p' =? p) && (t' =? tick) && obs_eqb o2 o1
+  | (OCreate _ _ _ _ | OCreatePlace _ _ _ _), _ => false
+  | _, ONone => true
+  | _, _ => false
+  end.
+
+Definition c12_ok (L : nat) (tick : N) (o1 : observation) (o : op) (x : out) (o2 : observation) : N :=
+  if negb (c12_create_ok tick o1 o x o2) then 1
   else if negb (forallb (fun b => is_market b || on_grid tick (o_price b)) (ob_orders o2)) then 2
   else
     let acct sd lv :=
